@@ -1,6 +1,6 @@
 #!/bin/sh
 # usage: tools/run_benign.sh   - every line must end in exit=0
-cd /verif
+cd "$(dirname "$0")/.."
 OUT=${BENIGN_OUT:-/tmp/benignruns}
 mkdir -p "$OUT"
 for pair in "B1 C02" "B1 C04" "B1 C06" "B2 C05" "B2 C03" "B3 C08" "B4 C03" "B4 C14" "B5 C10" "B5 C12" "B5 C09"; do
